@@ -8,7 +8,11 @@
     3b. the HMAC key block through which a passphrase enters scrypt;
     4.  passphrase binding under the ideal laws of kdf and hash, the stored
         parameters after a restart and under tampering; waddrmgr's wrappers;
-    5.  the toy instance satisfies every law (non-vacuity). *)
+    5.  the toy instance satisfies every law (non-vacuity);
+    6.  the wrapper parameterised by the code facts regenerated from snacl.go
+        (Generated/SnaclFacts.v): equal to the above when the facts hold, the
+        theorems transported in the form Properties/C17.v states, each fact
+        shown necessary, waddrmgr's passphrase checks. *)
 From Verif Require Import Base.Prelude Crypto.Snacl.
 Local Open Scope N_scope.
 
@@ -871,3 +875,301 @@ Qed.
 
 Theorem toy_hash_inj : law_hash_inj toy_hash.
 Proof. intros a b H. exact H. Qed.
+
+(** * 6. The wrapper as read from the source ([decrypt_c], [derive_key_c] ...)
+
+    The definitions parameterised by the regenerated code facts coincide with
+    the ones above when the facts hold ([..._faithful]); the theorems of
+    sections 3 and 4 are transported along these equations ([c_...]: the form
+    Properties/C17.v states, with "fails" instead of the exact error value).
+    When a fact does NOT hold the property is refuted in the model
+    ([unchecked_open_decrypts_anything], [prefix_compare_accepts_tampered_digest],
+    [preprocessed_passphrase_accepts_preimages]): each fact is necessary. *)
+
+Lemma fails_err {A} (e : err) : fails (@Err A e).
+Proof. exists e. reflexivity. Qed.
+
+Lemma fails_not_ok {A} (r : result A) a : fails r -> r <> Ok a.
+Proof. intros [e ->]. discriminate. Qed.
+
+Lemma firstn_xor_at (l : bytes) n i mask : (n <= i)%nat -> firstn n (xor_at l i mask) = firstn n l.
+Proof.
+  revert n i; induction l as [|b l IH]; intros [|n] [|i] H; simpl; try reflexivity; try lia.
+  f_equal. apply IH. lia.
+Qed.
+
+(** needs no fact: the success path of Decrypt does not look at them *)
+Theorem c_roundtrip (cf : code_facts) seal open : law_open_seal seal open ->
+  forall k n m, length n = NonceSize -> decrypt_c cf open k (encrypt_with seal k n m) = Ok m.
+Proof.
+  intros L k n m Hn. unfold decrypt_c, encrypt_with. rewrite app_length, Hn.
+  destruct (Nat.ltb_spec (NonceSize + length (seal k n m)) NonceSize) as [H|H]; [lia|].
+  rewrite (firstn_app_exact n _ NonceSize Hn), (skipn_app_exact n _ NonceSize Hn), L. reflexivity.
+Qed.
+
+(** the fact is necessary: with the result of Open ignored, EVERY input of
+    at least 24 bytes "decrypts" (no authentication at all) *)
+Theorem unchecked_open_decrypts_anything (cf : code_facts) open k c :
+  cf_open_checked cf = false -> (NonceSize <= length c)%nat -> exists m, decrypt_c cf open k c = Ok m.
+Proof.
+  intros H HL. unfold decrypt_c. destruct (Nat.ltb_spec (length c) NonceSize); [lia|]. rewrite H.
+  destruct (open _ _ _); eexists; reflexivity.
+Qed.
+
+Section AsReadProofs.
+  Variable cf : code_facts.
+  Variable pre : bytes -> bytes.
+
+  Lemma decrypt_c_checked open k c :
+    cf_open_checked cf = true -> decrypt_c cf open k c = decrypt open k c.
+  Proof.
+    intros H. unfold decrypt_c, decrypt. rewrite H.
+    destruct (length c <? NonceSize)%nat; [reflexivity|]. destruct (open _ _ _); reflexivity.
+  Qed.
+
+  Lemma mgr_decrypt_c_checked open locked kt ks c :
+    cf_open_checked cf = true -> mgr_decrypt_c cf open locked kt ks c = mgr_decrypt open locked kt ks c.
+  Proof.
+    intros H. unfold mgr_decrypt_c, mgr_decrypt.
+    destruct (select_crypto_key locked kt ks); [reflexivity|]. rewrite (decrypt_c_checked _ _ _ H). reflexivity.
+  Qed.
+
+  Lemma derive_key_c_faithful kdf hash sk pw :
+    cf_pw_unchanged cf = true -> cf_digest_cmp cf = None ->
+    derive_key_c cf pre kdf hash sk pw = derive_key kdf hash sk pw.
+  Proof.
+    intros H1 H2. unfold derive_key_c, derive_key, kdf_input, digest_matches. rewrite H1, H2. reflexivity.
+  Qed.
+
+  Lemma new_secret_key_c_faithful kdf hash pw rnd n r p :
+    cf_pw_unchanged cf = true ->
+    new_secret_key_c cf pre kdf hash pw rnd n r p = new_secret_key kdf hash pw rnd n r p.
+  Proof. intros H. unfold new_secret_key_c, kdf_input. rewrite H. reflexivity. Qed.
+
+  Lemma digest_matches_refl a : digest_matches cf a a = true.
+  Proof. unfold digest_matches. destruct (cf_digest_cmp cf); apply bytes_eqb_refl. Qed.
+
+  (** ** Encrypt / Decrypt *)
+
+  Theorem c_wrong_key : cf_open_checked cf = true -> forall seal open,
+    law_open_only_sealed seal open -> law_seal_binds seal ->
+    forall k k' n m, length n = NonceSize -> k' <> k ->
+      fails (decrypt_c cf open k' (encrypt_with seal k n m)).
+  Proof.
+    intros Hc seal open L1 L2 k k' n m Hn Hk.
+    rewrite (decrypt_c_checked _ _ _ Hc), (decrypt_wrong_key seal open L1 L2 k k' n m Hn Hk). apply fails_err.
+  Qed.
+
+  Theorem c_byte_modified : cf_open_checked cf = true -> forall seal open,
+    law_open_only_sealed seal open -> law_seal_binds seal -> law_seal_no_near seal ->
+    forall k n m i mask, length n = NonceSize -> (i < length (encrypt_with seal k n m))%nat -> mask <> 0 ->
+      fails (decrypt_c cf open k (xor_at (encrypt_with seal k n m) i mask)).
+  Proof.
+    intros Hc seal open L1 L2 L3 k n m i mask Hn Hi Hm.
+    rewrite (decrypt_c_checked _ _ _ Hc), (decrypt_one_byte_modified seal open L1 L2 L3 k n m i mask Hn Hi Hm).
+    apply fails_err.
+  Qed.
+
+  Theorem c_bit_flip : cf_open_checked cf = true -> forall seal open,
+    law_open_only_sealed seal open -> law_seal_binds seal -> law_seal_no_near seal ->
+    forall k n m i j, length n = NonceSize -> (i < length (encrypt_with seal k n m))%nat ->
+      fails (decrypt_c cf open k (flip_bit (encrypt_with seal k n m) i j)).
+  Proof.
+    intros Hc seal open L1 L2 L3 k n m i j Hn Hi.
+    apply (c_byte_modified Hc seal open L1 L2 L3 k n m i (2 ^ j) Hn Hi). apply pow2_nonzero.
+  Qed.
+
+  Theorem c_truncation : cf_open_checked cf = true -> forall seal open,
+    law_open_only_sealed seal open -> law_seal_no_prefix seal ->
+    forall k n m t, length n = NonceSize -> (t < length (encrypt_with seal k n m))%nat ->
+      fails (decrypt_c cf open k (firstn t (encrypt_with seal k n m))).
+  Proof.
+    intros Hc seal open L1 L2 k n m t Hn Ht.
+    rewrite (decrypt_c_checked _ _ _ Hc), (decrypt_truncated seal open L1 L2 k n m t Hn Ht). apply fails_err.
+  Qed.
+
+  Theorem c_only_honest : cf_open_checked cf = true -> forall seal open,
+    law_open_only_sealed seal open ->
+    forall k c,
+      ((exists m, decrypt_c cf open k c = Ok m) \/ fails (decrypt_c cf open k c)) /\
+      forall m, decrypt_c cf open k c = Ok m ->
+        c = encrypt_with seal k (firstn NonceSize c) m /\ length (firstn NonceSize c) = NonceSize.
+  Proof.
+    intros Hc seal open L k c. rewrite (decrypt_c_checked _ _ _ Hc). split.
+    - destruct (decrypt_outcomes open k c) as [H|[H|H]]; [left; exact H|right|right]; rewrite H; apply fails_err.
+    - intros m. exact (decrypt_only_honest seal open L k c m).
+  Qed.
+
+  (** ** Passphrases *)
+
+  Theorem c_passphrase_exact : cf_pw_unchanged cf = true -> cf_digest_cmp cf = None -> forall kdf hash,
+    law_kdf_inj kdf hash -> law_kdf_hmac kdf hash -> law_kdf_domain kdf -> law_hash_inj hash ->
+    forall pw s n r p sk sk', new_secret_key_c cf pre kdf hash pw (Some s) n r p = Ok sk ->
+      sk_params sk' = sk_params sk ->
+      derive_key_c cf pre kdf hash sk' pw = (sk, None) /\
+      forall pw',
+        (hmac_key_block hash pw' <> hmac_key_block hash pw ->
+         snd (derive_key_c cf pre kdf hash sk' pw') = Some ErrInvalidPassword) /\
+        (snd (derive_key_c cf pre kdf hash sk' pw') = None <->
+         hmac_key_block hash pw' = hmac_key_block hash pw).
+  Proof.
+    intros F1 F2 kdf hash L1 L2 L3 L4 pw s n r p sk sk' H HP.
+    rewrite (new_secret_key_c_faithful _ _ _ _ _ _ _ F1) in H. split.
+    - rewrite (derive_key_c_faithful _ _ _ _ F1 F2).
+      exact (derive_key_accepts_creator kdf hash pw s n r p sk sk' H HP).
+    - intros pw'. rewrite (derive_key_c_faithful _ _ _ _ F1 F2). split.
+      + exact (derive_key_rejects_other kdf hash L1 L3 L4 pw s n r p sk sk' pw' H HP).
+      + exact (derive_key_exact kdf hash L1 L2 L3 L4 pw s n r p sk sk' pw' H HP).
+  Qed.
+
+  Theorem c_passphrase_exact_outside_K : cf_pw_unchanged cf = true -> cf_digest_cmp cf = None -> forall kdf hash,
+    law_kdf_inj kdf hash -> law_kdf_domain kdf -> law_hash_inj hash ->
+    forall pw s n r p sk sk' pw', new_secret_key_c cf pre kdf hash pw (Some s) n r p = Ok sk ->
+      sk_params sk' = sk_params sk ->
+      (length pw <= 64)%nat -> (length pw' <= 64)%nat -> last pw 1 <> 0 -> last pw' 1 <> 0 ->
+      pw' <> pw -> snd (derive_key_c cf pre kdf hash sk' pw') = Some ErrInvalidPassword.
+  Proof.
+    intros F1 F2 kdf hash L1 L3 L4 pw s n r p sk sk' pw' H HP B B' Z Z' Hne.
+    rewrite (new_secret_key_c_faithful _ _ _ _ _ _ _ F1) in H. rewrite (derive_key_c_faithful _ _ _ _ F1 F2).
+    apply (derive_key_rejects_other kdf hash L1 L3 L4 pw s n r p sk sk' pw' H HP).
+    intros E. apply Hne. exact (hmac_key_block_plain hash pw' pw B' B Z' Z E).
+  Qed.
+
+  Theorem c_refuted_trailing_nul : cf_pw_unchanged cf = true -> cf_digest_cmp cf = None -> forall kdf hash,
+    law_kdf_hmac kdf hash ->
+    forall pw s n r p sk sk', new_secret_key_c cf pre kdf hash pw (Some s) n r p = Ok sk ->
+      sk_params sk' = sk_params sk -> (length pw < 64)%nat ->
+      pw ++ [0] <> pw /\ derive_key_c cf pre kdf hash sk' (pw ++ [0]) = (sk, None).
+  Proof.
+    intros F1 F2 kdf hash L2 pw s n r p sk sk' H HP B.
+    rewrite (new_secret_key_c_faithful _ _ _ _ _ _ _ F1) in H. rewrite (derive_key_c_faithful _ _ _ _ F1 F2). split.
+    - intros E. apply (f_equal (@length N)) in E. rewrite app_length in E. simpl in E. lia.
+    - apply (derive_key_accepts_equivalent kdf hash L2 pw s n r p sk sk' (pw ++ [0]) H HP).
+      exact (hmac_key_block_trailing_nul hash pw B).
+  Qed.
+
+  Theorem c_zero_then_rederive : cf_pw_unchanged cf = true -> cf_digest_cmp cf = None ->
+    forall kdf hash pw s n r p sk,
+    new_secret_key_c cf pre kdf hash pw (Some s) n r p = Ok sk ->
+    Forall (fun b => b = 0) (sk_key (sk_zero sk)) /\
+    derive_key_c cf pre kdf hash (sk_zero sk) pw = (sk, None).
+  Proof.
+    intros F1 F2 kdf hash pw s n r p sk H.
+    rewrite (new_secret_key_c_faithful _ _ _ _ _ _ _ F1) in H. rewrite (derive_key_c_faithful _ _ _ _ F1 F2). split.
+    - exact (proj1 (sk_zero_key sk)).
+    - exact (derive_key_accepts_creator kdf hash pw s n r p sk (sk_zero sk) H (sk_zero_params sk)).
+  Qed.
+
+  Theorem c_restart : cf_pw_unchanged cf = true -> cf_digest_cmp cf = None -> forall kdf hash,
+    law_kdf_inj kdf hash -> law_kdf_domain kdf -> law_hash_inj hash ->
+    forall pw s n r p sk, new_secret_key_c cf pre kdf hash pw (Some s) n r p = Ok sk ->
+      params_in_range (sk_params sk) ->
+      exists sk0, unmarshal fresh_sk (marshal sk) = Ok sk0 /\ sk_params sk0 = sk_params sk /\
+        derive_key_c cf pre kdf hash sk0 pw = (sk, None) /\
+        forall pw', hmac_key_block hash pw' <> hmac_key_block hash pw ->
+                    snd (derive_key_c cf pre kdf hash sk0 pw') = Some ErrInvalidPassword.
+  Proof.
+    intros F1 F2 kdf hash L1 L3 L4 pw s n r p sk H HR.
+    rewrite (new_secret_key_c_faithful _ _ _ _ _ _ _ F1) in H.
+    destruct (restart_rederives kdf hash L1 L3 L4 pw s n r p sk H HR) as (sk0 & A & B & C & D).
+    exists sk0. split; [exact A|]. split; [exact B|]. split.
+    - rewrite (derive_key_c_faithful _ _ _ _ F1 F2). exact C.
+    - intros pw' Hne. rewrite (derive_key_c_faithful _ _ _ _ F1 F2). exact (D pw' Hne).
+  Qed.
+
+  Theorem c_params_tamper : cf_pw_unchanged cf = true -> cf_digest_cmp cf = None -> forall kdf hash,
+    law_kdf_inj kdf hash -> law_hash_inj hash ->
+    forall pw s n r p sk i mask sk', new_secret_key_c cf pre kdf hash pw (Some s) n r p = Ok sk ->
+      params_in_range (sk_params sk) -> (i < 88)%nat -> mask <> 0 ->
+      wf_bytes (xor_at (marshal sk) i mask) ->
+      unmarshal fresh_sk (xor_at (marshal sk) i mask) = Ok sk' ->
+      snd (derive_key_c cf pre kdf hash sk' pw) = Some ErrInvalidPassword \/
+      snd (derive_key_c cf pre kdf hash sk' pw) = Some ErrKdf.
+  Proof.
+    intros F1 F2 kdf hash L1 L4 pw s n r p sk i mask sk' H HR Hi Hm Hwf Hu.
+    rewrite (new_secret_key_c_faithful _ _ _ _ _ _ _ F1) in H. rewrite (derive_key_c_faithful _ _ _ _ F1 F2).
+    exact (tampered_params_rejected kdf hash L1 L4 pw s n r p sk i mask sk' H HR Hi Hm Hwf Hu).
+  Qed.
+
+  (** the facts are necessary.  A digest compared on its first [cmp] bytes
+      only: the stored parameters with ANY modification of a digest byte at or
+      beyond [cmp] are accepted with the creating passphrase (the stored
+      digest is no longer bound; for cmp = 0 every passphrase is accepted). *)
+  Theorem prefix_compare_accepts_tampered_digest kdf hash pw s n r p sk sk' cmp i mask :
+    cf_digest_cmp cf = Some cmp -> (cmp <= i)%nat ->
+    new_secret_key_c cf pre kdf hash pw (Some s) n r p = Ok sk ->
+    sk_params sk' = {| salt := s; digest := xor_at (digest (sk_params sk)) i mask;
+                       pN := n; pR := r; pP := p |} ->
+    snd (derive_key_c cf pre kdf hash sk' pw) = None /\
+    ((i < length (digest (sk_params sk)))%nat -> mask <> 0 -> digest (sk_params sk') <> digest (sk_params sk)).
+  Proof.
+    intros F Hi H HP. unfold new_secret_key_c in H.
+    apply new_secret_key_inv in H as (k & Hk & ->). cbn [sk_params digest] in *. split.
+    - unfold derive_key_c, derive_key_raw. rewrite HP. cbn [salt pN pR pP digest]. rewrite Hk.
+      cbn [sk_key sk_params digest]. unfold digest_matches. rewrite F.
+      rewrite (firstn_xor_at _ _ _ _ Hi), bytes_eqb_refl. reflexivity.
+    - intros Hlt Hm. rewrite HP. cbn [digest]. exact (xor_at_neq _ _ _ Hlt Hm).
+  Qed.
+
+  (** A passphrase pre-processed before the kdf: every passphrase with the
+      same image is accepted (for "trailing CR/LF trimmed": P and P ++ "\n";
+      for "lower-cased": every case variant). *)
+  Theorem preprocessed_passphrase_accepts_preimages kdf hash pw pw' s n r p sk sk' :
+    cf_pw_unchanged cf = false -> pre pw' = pre pw ->
+    new_secret_key_c cf pre kdf hash pw (Some s) n r p = Ok sk -> sk_params sk' = sk_params sk ->
+    derive_key_c cf pre kdf hash sk' pw' = (sk, None).
+  Proof.
+    intros F E H HP. unfold new_secret_key_c, kdf_input in H. rewrite F in H.
+    apply new_secret_key_inv in H as (k & Hk & ->). cbn [sk_params] in HP.
+    unfold derive_key_c, derive_key_raw, kdf_input. rewrite F, E, HP. cbn [salt pN pR pP digest].
+    rewrite Hk. cbn [sk_key sk_params digest]. rewrite digest_matches_refl. reflexivity.
+  Qed.
+
+  (** ** waddrmgr: the passphrase checks *)
+
+  Lemma mgr_pw_of_derive_accepted b r : mgr_pw_of_derive b r = PwAccepted <-> snd r = None.
+  Proof.
+    unfold mgr_pw_of_derive. destruct (snd r) as [e|]; [|split; reflexivity].
+    split; [|discriminate]. destruct e, b; discriminate.
+  Qed.
+
+  Lemma mgr_pw_of_derive_wrong b r : snd r = Some ErrInvalidPassword -> mgr_pw_of_derive b r = PwWrong.
+  Proof. unfold mgr_pw_of_derive. intros ->. reflexivity. Qed.
+
+  Definition mgr_pw_base (op : mgr_pw_op) (pub priv : bytes) : bytes :=
+    match op with OpOpen | OpChangePub => pub | _ => priv end.
+
+  (** Open / Unlock (locked) / ChangePassphrase accept a passphrase iff it has
+      the HMAC key block of the public resp. private passphrase the manager
+      was created with and answer "wrong passphrase" otherwise; Unlock on an
+      unlocked manager accepts the private passphrase itself and nothing else. *)
+  Theorem mgr_pw_check_exact : cf_pw_unchanged cf = true -> cf_digest_cmp cf = None -> forall kdf hash,
+    law_kdf_inj kdf hash -> law_kdf_hmac kdf hash -> law_kdf_domain kdf -> law_hash_inj hash ->
+    forall pub priv s1 s2 n r p n' r' p' skpub skpriv st,
+      new_secret_key_c cf pre kdf hash pub (Some s1) n r p = Ok skpub ->
+      new_secret_key_c cf pre kdf hash priv (Some s2) n' r' p' = Ok skpriv ->
+      sk_params (mp_pub st) = sk_params skpub -> sk_params (mp_priv st) = sk_params skpriv ->
+      mp_priv_pw st = priv ->
+      forall op pw',
+        let same := match op with
+                    | OpUnlockUnlocked => pw' = priv
+                    | _ => hmac_key_block hash pw' = hmac_key_block hash (mgr_pw_base op pub priv)
+                    end in
+        (mgr_pw_check cf pre kdf hash op st pw' = PwAccepted <-> same) /\
+        (~ same -> mgr_pw_check cf pre kdf hash op st pw' = PwWrong).
+  Proof.
+    intros F1 F2 kdf hash L1 L2 L3 L4 pub priv s1 s2 n r p n' r' p' skpub skpriv st Hpub Hpriv HP1 HP2 Hpw op pw'.
+    destruct (c_passphrase_exact F1 F2 kdf hash L1 L2 L3 L4 pub s1 n r p skpub (mp_pub st) Hpub HP1) as [_ Epub].
+    destruct (c_passphrase_exact F1 F2 kdf hash L1 L2 L3 L4 priv s2 n' r' p' skpriv (mp_priv st) Hpriv HP2) as [_ Epriv].
+    destruct (Epub pw') as [Rpub Apub]. destruct (Epriv pw') as [Rpriv Apriv].
+    destruct op; cbn [mgr_pw_check mgr_pw_base].
+    - split; [rewrite mgr_pw_of_derive_accepted; exact Apub|]. intros Hn. apply mgr_pw_of_derive_wrong. exact (Rpub Hn).
+    - split; [rewrite mgr_pw_of_derive_accepted; exact Apriv|]. intros Hn. apply mgr_pw_of_derive_wrong. exact (Rpriv Hn).
+    - rewrite Hpw. destruct (bytes_eqb (hash (mp_salt st ++ pw')) (hash (mp_salt st ++ priv))) eqn:E.
+      + apply bytes_eqb_eq in E. apply L4 in E. apply app_inv_head in E. split; [split; [intros _; exact E|reflexivity]|].
+        intros Hn. contradiction.
+      + split; [split; [discriminate|]|reflexivity]. intros ->. rewrite bytes_eqb_refl in E. discriminate.
+    - split; [rewrite mgr_pw_of_derive_accepted; exact Apub|]. intros Hn. apply mgr_pw_of_derive_wrong. exact (Rpub Hn).
+    - split; [rewrite mgr_pw_of_derive_accepted; exact Apriv|]. intros Hn. apply mgr_pw_of_derive_wrong. exact (Rpriv Hn).
+  Qed.
+End AsReadProofs.
